@@ -16,6 +16,7 @@ type Known struct {
 		Oracle     string `json:"oracle"`
 		DetailRe   string `json:"detail_re"`
 		ScenarioRe string `json:"scenario_re"`
+		Attr       string `json:"attr"`
 	} `json:"match"`
 	Commit string `json:"commit,omitempty"`
 	detail, scen, oracle *regexp.Regexp
@@ -60,6 +61,17 @@ func MatchKnown(known []*Known, sc *Scenario, v *Violation) *Known {
 		}
 		if k.detail != nil && !k.detail.MatchString(v.Detail) {
 			continue
+		}
+		if k.Match.Attr != "" {
+			has := false
+			for _, a := range v.Attrs {
+				if a == k.Match.Attr {
+					has = true
+				}
+			}
+			if !has {
+				continue
+			}
 		}
 		if k.scen != nil {
 			if text == nil {
